@@ -171,6 +171,10 @@ class CustomError(Exception):
 def _make_exc(name):
     import dds
 
+    if name.endswith(":empty"):
+        # an exception without any message (bare `assert`, `raise ValueError()`, Ctrl-C)
+        return {"AssertionError": AssertionError, "ValueError": ValueError, "KeyboardInterrupt": KeyboardInterrupt}[name.split(":")[0]]()
+
     table = {
         "ValueError": ValueError, "KeyError": KeyError, "CustomError": CustomError,
         "KeyboardInterrupt": KeyboardInterrupt, "SystemExit": SystemExit, "GeneratorExit": GeneratorExit,
